@@ -404,6 +404,15 @@ func runGarbage(gc garbageCase, s *kit.Summary) {
 	acc := firstAccepting(gc.Data)
 	s.Count(fmt.Sprintf("garbage:%s:accepted_by=%d", gc.Kind, acc))
 	switch {
+	case dec != nil && acc < 0 && len(gc.Data) == 0:
+		// the zero-byte input is outside the quantified domain (it is the zero-record stream of every format):
+		// nil is fine, and so is a decoder that ends the stream at once; only a fabricated record is wrong
+		first, _ := decodeSome(dec, 1)
+		if len(first) == 1 && !first[0].err {
+			s.Violate(kit.Violation{Kind: "detect_wrong_decoder", What: "DecoderFor returned a decoder that yields a record from a zero-byte input", Input: gc})
+		} else {
+			s.Count("garbage:decoder_without_records_for_zero_byte_input(not a violation)")
+		}
 	case dec != nil && acc < 0:
 		s.Violate(kit.Violation{Kind: "detect_wrong_decoder", What: "DecoderFor returned a decoder for input whose first record no format's decoder accepts", Input: gc})
 	case dec == nil && acc >= 0:
